@@ -281,7 +281,7 @@ class ForwardScheduler(IScheduler):
                     children_starts = [t.start for t in _task.children if t.start is not None]
                     if len(children_starts) == 0:
                         children_starts = [datetime(1970, 1, 1)]
-                    _task.start = max(min(children_starts), max_predecessor_ends)
+                    _task.start = min(children_starts)
 
             if _task.estimate is None:
                 if is_leaf:
@@ -455,7 +455,7 @@ class BackwardScheduler(IScheduler):
                     if len(children_ends) == 0:
                         _task.end = min_successor_starts
                     else:
-                        _task.end = min(max(children_ends), min_successor_starts)
+                        _task.end = max(children_ends)
 
             if _task.estimate is None:
                 if is_leaf:
